@@ -130,6 +130,8 @@ int BufferedStream::copy(char* out, int max) {
 	for (std::size_t n = static_cast<std::size_t>(max); n && peek();) {
 		std::size_t b = (ALLOC_SIZE - rpos_) - 1;
 		std::size_t m = std::min(n, b);
+		// do not copy beyond the end of the data actually read into the buffer
+		if (const void* z = std::memchr(buf_ + rpos_, 0, m)) { m = static_cast<std::size_t>(static_cast<const char*>(z) - (buf_ + rpos_)); }
 		out = std::copy(buf_ + rpos_, buf_ + rpos_ + m, out);
 		n -= m;
 		os += m;
